@@ -7,6 +7,8 @@ use crate::gen::{case_strategy, GenParams};
 use crate::guard::{run_guarded, Guarded};
 use crate::memfs::{JOp, MemFs};
 use crate::runner::*;
+use proptest::prelude::*;
+use proptest::sample::select;
 use proptest::test_runner::{Config, RngSeed, TestCaseError, TestError, TestRunner};
 use serde::{Deserialize, Serialize};
 use serde_json::{json, Value};
@@ -66,14 +68,14 @@ struct Tally {
 
 /// Enumerate the crash points of one recorded workload. Returns the first failing point.
 fn enumerate_c02(
-    case: &Case,
+    ch: u64,
+    universe: &[Vec<u8>],
     rec: &Recorded,
     tier: Tier,
     dircheck: bool,
     tally: &mut Tally,
 ) -> Option<(PointReplay, String)> {
     let j = rec.journal.len();
-    let ch = hash_json(case);
     let all = tier == Tier::Thorough || j <= 400;
     for k in 0..=j {
         if !all {
@@ -84,6 +86,9 @@ fn enumerate_c02(
             }
         }
         let accept = rec.acceptable(k, false);
+        if accept.len() > 2 {
+            *tally.classes.entry("crash_with_several_batches_in_flight".into()).or_insert(0) += 1;
+        }
         let base_cfg = rec.cfg_at(k);
         // alternate the two reuse settings and occasionally a different config over the points
         let h = mix(ch, 0x1000 + k as u64);
@@ -104,7 +109,7 @@ fn enumerate_c02(
             torn: None,
             cfg,
             accept: accept.iter().map(|m| m.iter().map(|(a, b)| (a.clone(), b.clone())).collect()).collect(),
-            universe: case.universe.clone(),
+            universe: universe.to_vec(),
             plan,
             counter: rec.counter,
         };
@@ -206,9 +211,8 @@ fn depth2(p: &PointReplay, _rec: &Recorded, tally: &mut Tally, ch: u64) -> Optio
     None
 }
 
-fn enumerate_c16(case: &Case, rec: &Recorded, tier: Tier, tally: &mut Tally) -> Option<(PointReplay, String)> {
+fn enumerate_c16(ch: u64, universe: &[Vec<u8>], rec: &Recorded, tier: Tier, tally: &mut Tally) -> Option<(PointReplay, String)> {
     let j = rec.journal.len();
-    let ch = hash_json(case);
     for k in 0..j {
         let JOp::Append { data, .. } = &rec.journal[k] else { continue };
         let n = data.len();
@@ -254,7 +258,7 @@ fn enumerate_c16(case: &Case, rec: &Recorded, tier: Tier, tally: &mut Tally) -> 
                     torn: Some(t),
                     cfg: rec.cfg_at(k),
                     accept: accept.iter().map(|m| m.iter().map(|(a, b)| (a.clone(), b.clone())).collect()).collect(),
-                    universe: case.universe.clone(),
+                    universe: universe.to_vec(),
                     plan: PostPlan { writes, reuse1: r1, reuse2: r2, dircheck: false },
                     counter: rec.counter,
                 };
@@ -293,16 +297,71 @@ fn run_workload(id: &str, case: &Case, tier: Tier, tally: &mut Tally) -> WlOutco
         Ok(r) => r,
         Err(e) => return WlOutcome::Skip(e),
     };
+    let ch = hash_json(case);
     let r = match id {
-        "C02" => enumerate_c02(case, &rec, tier, false, tally),
-        "C11" => enumerate_c02(case, &rec, tier, true, tally),
-        "C16" => enumerate_c16(case, &rec, tier, tally),
+        "C02" => enumerate_c02(ch, &case.universe, &rec, tier, false, tally),
+        "C11" => enumerate_c02(ch, &case.universe, &rec, tier, true, tally),
+        "C16" => enumerate_c16(ch, &case.universe, &rec, tier, tally),
         _ => unreachable!(),
     };
     match r {
         None => WlOutcome::Pass,
         Some((p, e)) => WlOutcome::Fail(p, e),
     }
+}
+
+/// Concurrent workload (2-3 writers, disjoint key groups, group commits): same enumeration, the
+/// acceptable states are the acknowledged prefix of every thread plus all-or-nothing of each
+/// thread's in-flight write.
+fn run_conc_workload(id: &str, wl: &ConcWl, tier: Tier, tally: &mut Tally) -> WlOutcome {
+    let rec = match record_conc(wl) {
+        Ok(r) => r,
+        Err(e) => return WlOutcome::Skip(e),
+    };
+    *tally.classes.entry("concurrent_workloads".into()).or_insert(0) += 1;
+    if rec.group_commit {
+        *tally.classes.entry("concurrent_workloads_with_a_group_commit_of_several_writers".into()).or_insert(0) += 1;
+    }
+    let ch = hash_json(wl);
+    let universe = conc_universe(wl);
+    let r = match id {
+        "C02" => enumerate_c02(ch, &universe, &rec, tier, false, tally),
+        "C16" => enumerate_c16(ch, &universe, &rec, tier, tally),
+        _ => unreachable!(),
+    };
+    match r {
+        None => WlOutcome::Pass,
+        Some((p, e)) => WlOutcome::Fail(p, format!("(concurrent writers) {e}")),
+    }
+}
+
+fn conc_wl_strategy() -> impl Strategy<Value = ConcWl> {
+    use crate::sched::Directive;
+    let val = prop_oneof![
+        20 => (8u32..200, prop::bool::weighted(0.2)).prop_map(|(len, compressible)| Val { len, compressible }),
+        2 => (0u32..8).prop_map(|len| Val { len, compressible: false }),
+        1 => (33_000u32..70_000).prop_map(|len| Val { len, compressible: false }),
+    ];
+    let op = prop_oneof![
+        30 => (0u8..CONC_GROUP, val.clone()).prop_map(|(j, v)| WOp::Put(j, v)),
+        6 => (0u8..CONC_GROUP).prop_map(WOp::Del),
+        10 => prop::collection::vec((0u8..CONC_GROUP, prop::option::weighted(0.8, val.clone())), 1..5).prop_map(WOp::Batch),
+        2 => Just(WOp::Flush),
+    ];
+    (2usize..=3).prop_flat_map(move |nt| {
+        let hold = (0..nt as i32, select(vec!["write.before_wal", "write.before_wal", "write.after_wal", "write.after_memtable"]), 0u32..5, 5u32..40)
+            .prop_map(|(role, p, nth, max_hold_ms)| Directive { role, point: p.to_string(), nth, max_hold_ms, linger_ms: 0, every: 0 });
+        let bg = (select(vec!["flush.before_build", "manifest.before_append", "manifest.after_append", "gc.before_delete"]), 0u32..3, 5u32..30)
+            .prop_map(|(p, nth, max_hold_ms)| Directive { role: -1, point: p.to_string(), nth, max_hold_ms, linger_ms: 0, every: 0 });
+        (
+            (select(vec![512usize, 700, 1500, 100_000]), select(vec![400u64, 1024, 1024 * 1024]), select(vec![16usize, 128, 4096]), any::<bool>())
+                .prop_map(|(memtable, file, block, reuse)| Cfg { memtable, file, block, reuse }),
+            prop::collection::vec(prop::collection::vec(op.clone(), 2..9), nt),
+            prop::collection::vec(prop_oneof![4 => hold, 1 => bg], 1..4),
+            prop_oneof![2 => Just(0u32), 1 => any::<u32>()],
+        )
+    })
+    .prop_map(|(cfg, programs, directives, sync_mask)| ConcWl { cfg, programs, directives, sync_mask })
 }
 
 pub fn replay_body(id: &str, p: &PointReplay, msg: &str) -> Value {
@@ -389,6 +448,87 @@ pub fn worker(ctx: &WorkerCtx, id: &'static str, quick_wl: u64, thorough_wl: u64
                 let p = minimise_point(p);
                 let body = replay_body(id, &p, &e);
                 let path = write_replay(id, ctx.seed, ctx.worker, 0, &body);
+                r.violations.push(ViolationRec { replay: path, message: e });
+            }
+            return r;
+        }
+        Err(TestError::Abort(reason)) => r.inconclusive.push(format!("proptest aborted: {}", reason.message())),
+    }
+    if id == "C11" {
+        return r;
+    }
+    // second campaign: concurrent writers (group commits, several batches in flight at the crash)
+    let conc_cases = (cases / 3).max(1);
+    let res = RefCell::new(r);
+    let failed = RefCell::new(false);
+    let found: RefCell<Option<(PointReplay, String)>> = RefCell::new(None);
+    let mut runner = TestRunner::new(Config {
+        cases: conc_cases as u32,
+        rng_seed: RngSeed::Fixed(ctx.derived_seed(8)),
+        failure_persistence: None,
+        max_shrink_iters: 60,
+        ..Config::default()
+    });
+    let outcome = runner.run(&conc_wl_strategy(), |wl| {
+        let w = wl.clone();
+        let g = run_guarded("crash-conc-case", move || {
+            let mut tally = Tally { points: 0, nontrivial: vec![], classes: Default::default() };
+            let out = run_conc_workload(id, &w, tier, &mut tally);
+            (out, tally)
+        });
+        let counting = !*failed.borrow();
+        let mut r = res.borrow_mut();
+        match g {
+            Guarded::Done((out, tally)) => {
+                if counting {
+                    r.evaluations += tally.points;
+                    r.nontrivial_hashes.extend(tally.nontrivial);
+                    for (k, v) in tally.classes {
+                        *r.classes.entry(k).or_insert(0) += v;
+                    }
+                }
+                match out {
+                    WlOutcome::Pass => {
+                        if counting && r.samples.len() < 3 {
+                            r.samples.push(json!({"concurrent_workload": serde_json::to_value(&wl).unwrap()}));
+                        }
+                        Ok(())
+                    }
+                    WlOutcome::Skip(e) => {
+                        if counting {
+                            r.inconclusive.push(format!("concurrent workload could not be recorded: {e}"));
+                        }
+                        Ok(())
+                    }
+                    WlOutcome::Fail(p, e) => {
+                        *failed.borrow_mut() = true;
+                        *found.borrow_mut() = Some((p, e.clone()));
+                        Err(TestCaseError::fail(e))
+                    }
+                }
+            }
+            Guarded::Panicked(m) => {
+                if counting {
+                    r.inconclusive.push(format!("panic while evaluating a concurrent workload (C09's property): {m}"));
+                }
+                Ok(())
+            }
+            Guarded::Hung(m) => {
+                if counting {
+                    r.inconclusive.push(format!("a call did not return (C09's property): {m}"));
+                }
+                Ok(())
+            }
+        }
+    });
+    let mut r = res.into_inner();
+    match outcome {
+        Ok(()) => {}
+        Err(TestError::Fail(_, _)) => {
+            if let Some((p, e)) = found.into_inner() {
+                let p = minimise_point(p);
+                let body = replay_body(id, &p, &e);
+                let path = write_replay(id, ctx.seed, ctx.worker, 1, &body);
                 r.violations.push(ViolationRec { replay: path, message: e });
             }
         }
